@@ -902,6 +902,46 @@ def r_add_pair(family, rng):
     return l, r
 
 
+# =========================================================================== traceability: what is modelled / regenerated / oracle-only
+_PFX = ["Accept", "AcceptCharset", "AcceptEncoding", "AcceptLanguage"]
+_ADDI = {"Accept": "_add_instance_and_non_accept_type", "AcceptCharset": "_add_instance_and_non_accept_charset_type",
+         "AcceptEncoding": "_add_instance_and_non_accept_encoding_type",
+         "AcceptLanguage": "_add_instance_and_non_accept_language_type"}
+# mirrored by hand in coq/Model/C19_acceptstr.v (and, for the quoting pair / media range / create, in the C03 model it imports)
+MODELLED = (
+    ["webob.acceptparse:_item_qvalue_pair_to_header_element",                  # item_q_element, float_repr, dec
+     "webob.acceptparse:Accept._escape_and_quote_parameter_value",             # escape_and_quote (C03 model)
+     "webob.acceptparse:Accept._process_quoted_string_token",                  # process_quoted / unquote_value (C03 model)
+     "webob.acceptparse:Accept._form_media_range",                             # form_media_range (C03 model)
+     "webob.acceptparse:Accept._form_extension_params_segment",                # form_ext_segment
+     "webob.acceptparse:Accept._iterable_to_header_element"]                   # accept_element
+    + ["webob.acceptparse:%s._python_value_to_header_str" % c for c in _PFX]   # accept_value_text / simple_value_text
+    + ["webob.acceptparse:%sValidHeader.__str__" % c for c in _PFX]            # str_accept / str_simple
+    + ["webob.acceptparse:%sValidHeader.__init__" % c for c in _PFX]           # new_valid (raises ValueError on invalid text)
+    + ["webob.acceptparse:%s%s.%s" % (c, k, m) for c in _PFX for k in ("ValidHeader", "NoHeader", "InvalidHeader")
+       for m in ("__add__", "__radd__", "copy")]                               # add_hdr / add_val / copy_hdr
+    + ["webob.acceptparse:%s%s.%s" % (c, k, _ADDI[c]) for c in _PFX for k in ("ValidHeader", "NoHeader", "InvalidHeader")]
+    + ["webob.acceptparse:%sNoHeader.__str__" % c for c in _PFX]               # S_no_header_text
+    + ["webob.acceptparse:%sInvalidHeader.__str__" % c for c in _PFX]          # S_invalid_text
+    + ["webob.acceptparse:create_accept_header", "webob.acceptparse:create_accept_charset_header",
+       "webob.acceptparse:create_accept_encoding_header", "webob.acceptparse:create_accept_language_header",   # create / fget
+       "webob.acceptparse:accept_property", "webob.acceptparse:accept_charset_property",
+       "webob.acceptparse:accept_encoding_property", "webob.acceptparse:accept_language_property"]            # fget / fset / fdel
+)
+# translated into coq/Gen/C03_regexes.v on every run (through C03's generator, which this module calls)
+REGENERATED = list(c03.REGENERATED)
+# exercised by the oracle only (object identity / state, request glue, read-only API interleaved in the histories)
+ORACLE_ONLY = (
+    ["webob.request:BaseRequest.accept", "webob.request:BaseRequest.accept_charset",
+     "webob.request:BaseRequest.accept_encoding", "webob.request:BaseRequest.accept_language"]
+    + ["webob.acceptparse:%sValidHeader.%s" % (c, m) for c in _PFX
+       for m in ("__repr__", "__bool__", "__iter__", "__contains__", "quality", "best_match")]
+    + ["webob.acceptparse:%sValidHeader.acceptable_offers" % c for c in _PFX[:3]]
+    + ["webob.acceptparse:AcceptLanguageValidHeader.basic_filtering", "webob.acceptparse:AcceptLanguageValidHeader.lookup"]
+    + ["webob.acceptparse:_%sInvalidOrNoHeader" % c for c in _PFX]
+)
+
+
 def gen(ctx):
     """Regenerate coq/Gen/C03_regexes.v through C03's generator.  The generated file starts with a comment naming the
     source tree; when only that line differs (same regexes read from another checkout, e.g. WEBOB_REPO=/tmp/wt-C19) the file
@@ -923,6 +963,9 @@ def gen(ctx):
 
 
 def run(ctx):
+    ctx.modelled(MODELLED)
+    ctx.extra["regenerated_from_source"] = REGENERATED
+    ctx.extra["oracle_only"] = ORACLE_ONLY
     ctx.broken += gen(ctx)
     ctx.build(["Props/C19.vo"])
     hist = {}
